@@ -13,9 +13,7 @@ from spec.derivation import capacity
 def _needs_pi(m, i):
     """Standard aromatic atom kinds only (C05 statement): returns True/False, or None for kinds not judged here."""
     a = m.atoms[i]
-    if not a.aromatic:
-        return None
-    nbrs = m.adjacent(i)
+    nbrs = m.adjacent(i)     # aromatic atoms, and atoms written upper-case but joined by explicit ':' bonds
     sigma = 0
     for j in nbrs:
         o = m.order(i, j)
@@ -50,7 +48,7 @@ def kekulizable(m):
     import networkx as nx
     need = {}
     for i, a in enumerate(m.atoms):
-        if a.aromatic:
+        if True:
             if not any(m.order(i, j) == 1.5 for j in m.adjacent(i)):
                 continue
             r = _needs_pi(m, i)
@@ -98,7 +96,8 @@ def analyze(s, reencode=True, stereo=True):
         out.append(('C03:same-molecule', '%s (selfies %r, output %r)' % (why, sel, smi)))
         stereo = False      # the atom-indexed clauses below need the same molecule; re-encoding stability does not
     # C05: kekulisation sanity on aromatic input atoms
-    arom = [i for i, a in enumerate(m_in.atoms) if a.aromatic] if ok else []
+    arom = [i for i, a in enumerate(m_in.atoms)
+            if a.aromatic or any(m_in.order(i, j) == 1.5 for j in m_in.adjacent(i))] if ok else []
     if arom:
         for i in arom:
             if m_out.atoms[i].aromatic:
@@ -113,6 +112,10 @@ def analyze(s, reencode=True, stereo=True):
             if need is True and len(dbl) != 1:
                 out.append(('C05:needs-pi', 'atom %d (%s) needs a pi bond, got %d (%r)' % (i, m_in.atoms[i].token,
                                                                                          len(dbl), smi)))
+                # C03: 'aromatic input bonds become a consistent single/double assignment' (and the implicit
+                # hydrogen count of the atom changes with it)
+                out.append(('C03:aromatic-assignment', 'atom %d (%s) of %r needs one double bond among its aromatic '
+                            'bonds, the output %r gives it %d' % (i, m_in.atoms[i].token, s, smi, len(dbl))))
                 break
             if need is False and len(dbl) != 0:
                 out.append(('C05:no-pi', 'atom %d (%s) must not get a ring double bond (%r)' % (i, m_in.atoms[i].token,
